@@ -223,6 +223,19 @@ func (cl *c17Cluster) withShard(col models.Collection, shardId string, f func(s 
 	return cl.nodes[cl.owner(shardId)].VerifShardManager().DoWithShard(col, shardId, f)
 }
 
+// c17Ranking: the query ranks (a vector leaf, alone or inside a composite): the shards' own answers are recorded
+func c17Ranking(q querySpec) bool {
+	if q.kind == "flat" {
+		return true
+	}
+	for _, s := range q.subs {
+		if c17Ranking(s) {
+			return true
+		}
+	}
+	return false
+}
+
 func c17IdAny(ids []uuid.UUID) models.Query {
 	return querySpec{kind: "idany", ids: ids}.model()
 }
@@ -462,7 +475,7 @@ func (h *c17Run) search(rq requestSpec) error {
 		}
 	}
 	direct := "[]"
-	if rq.q.kind == "flat" {
+	if c17Ranking(rq.q) {
 		items := make([]string, len(h.col.ShardIds))
 		for i, sid := range h.col.ShardIds {
 			sr := rq.model()
@@ -504,7 +517,7 @@ func (h *c17Run) search(rq requestSpec) error {
 	h.note(fmt.Sprintf("search limit=%d", rq.limit))
 	h.note("search offset " + okind)
 	h.note(fmt.Sprintf("search sortkeys=%d", len(rq.sort)))
-	h.note(fmt.Sprintf("search %s down=%d %s", map[bool]string{true: "vector", false: "filter"}[rq.q.kind == "flat"], h.shardsDown(), outcome))
+	h.note(fmt.Sprintf("search %s down=%d %s", map[bool]string{true: "vector", false: "filter"}[c17Ranking(rq.q)], h.shardsDown(), outcome))
 	if err == nil && len(h.samples) < 2 && n > 2 && len(rq.sort) > 0 && len(res) > 2 {
 		h.samples = append(h.samples, map[string]any{"kind": "search", "servers": len(h.cl.servers), "entry": h.entry, "shards": n, "limit": rq.limit, "offset": rq.offset, "sort": fmt.Sprint(rq.sort), "select": rq.sel, "rows": len(res)})
 	}
@@ -551,7 +564,7 @@ func (h *c17Run) genRequest() requestSpec {
 		}
 	}
 	// select / sort
-	if rq.q.kind == "flat" {
+	if c17Ranking(rq.q) {
 		rq.sel = [][]string{nil, {"*"}, {"i"}}[r.IntN(3)]
 	} else {
 		switch r.IntN(6) {
